@@ -1014,3 +1014,30 @@ def find_result_tests(facts):
     if n < 3:
         out.append(ob("hll.find-sign", "anchor", "", "unrecognised", "only %d tests of a find() result found" % n, ""))
     return out
+
+
+def aux_values(facts):
+    """HLL_4: the exception table (AuxHashMap) holds the ACTUAL register values; only the 4-bit array holds values shifted by
+    curMin.  Every value handed to mustAdd / mustReplace from the Hll4Array code is therefore free of a `- curMin_` shift
+    (read through single-assignment locals), and the calls inside one function hand over the same value."""
+    from astu import single_assignment_locals
+    fns = hll_fns(facts)
+    out = []
+    for pat, fn in sorted(fns.items()):
+        if "Hll4Array" not in (fn.get("rect") or "") or fn.get("body") is None:
+            continue
+        sal = single_assignment_locals(fn)
+        calls = []
+        walk(fn["body"], lambda n: calls.append(n) if n.get("k") == "Call" and n.get("cname") in ("mustAdd", "mustReplace") and len(n.get("args", [])) == 2 else None)
+        vals = []
+        for i, c in enumerate(calls):
+            key = "%s:%s#%d:actual-value" % (short(fn["patq"]), c["cname"], i)
+            t = txt(c["args"][1], sal).replace(" ", "")
+            vals.append(t)
+            if "curMin" in t:
+                out.append(ob("hll.aux-value", key, c.get("loc", fn["pat"]), "violated", "%s() stores `%s`, a value shifted by curMin, in the exception table: the table holds actual register values (only the 4-bit array is relative to curMin), so the register reads back too small once curMin > 0" % (c["cname"], t), fn["qname"]))
+            elif len(set(vals)) > 1 and not any(v.startswith(("old", "it", "coupon", "elem:")) or "getValue" in v or "pair" in v.lower() for v in set(vals)) and fn["name"] == "internalHll4Update":
+                out.append(ob("hll.aux-value", key, c.get("loc", fn["pat"]), "violated", "mustAdd / mustReplace in %s store different values (%s) for the same update" % (fn["name"], sorted(set(vals))), fn["qname"]))
+            else:
+                out.append(ob("hll.aux-value", key, c.get("loc", fn["pat"]), "discharged", "%s() stores the actual value `%s`" % (c["cname"], t), fn["qname"]))
+    return out
